@@ -32,6 +32,9 @@ type D struct {
 	LoadVal func(*ssa.UnOp) ssa.Value
 	depth   int
 	inLit   map[*ssa.Alloc]bool
+	// Subst renders the listed parameters as the given descriptors (used when a
+	// rule looks into a helper on behalf of its single caller).
+	Subst map[*ssa.Parameter]string
 }
 
 func (p *Prog) D() *D { return &D{P: p} }
@@ -50,6 +53,9 @@ func (d *D) Of(v ssa.Value) string {
 	defer func() { d.depth-- }()
 	switch x := v.(type) {
 	case *ssa.Parameter:
+		if s, ok := d.Subst[x]; ok {
+			return s
+		}
 		return paramName(x)
 	case *ssa.FreeVar:
 		if b := freeVarBinding(x); b != nil {
